@@ -8,9 +8,11 @@ import tempfile
 import time
 from concurrent.futures import ThreadPoolExecutor
 
-SPEC_DIR = "/verif/spec"
+import paths  # noqa: E402
+
+SPEC_DIR = os.path.join(paths.VERIF, "spec")
 JAR = "/opt/veriftools/tla/tla2tools.jar:/opt/veriftools/tla/CommunityModules-deps.jar"
-WORK = os.environ.get("VERIF_WORK", "/verif/work")
+WORK = os.environ.get("VERIF_WORK", os.path.join(paths.VERIF, "work"))
 
 
 class MachineryError(Exception):
@@ -23,6 +25,9 @@ def workdir(prefix):
 
 
 def tlc_cmd(module, cfg, metadir, workers=1, extra=(), jvm=()):
+    if not any(a.startswith("-Xmx") for a in jvm):
+        # bounded heaps: many single-worker JVMs run side by side (the default, a quarter of the RAM each, got one killed)
+        jvm = (*jvm, "-Xmx3g" if workers == 1 else "-Xmx20g")
     return ["java", "-XX:+UseParallelGC", "-Xss16m", *jvm, "-cp", JAR, "tlc2.TLC",
             "-workers", str(workers), "-metadir", metadir, "-noGenerateSpecTE",
             "-config", cfg, *extra, module]
@@ -64,6 +69,8 @@ def parse_coverage(out):
     return cov
 
 
+CHUNK = 600
+
 INV_NAMES = {0: "", 1: "InvRTCNoNesting", 2: "InvQuiescent", 3: "InvExactlyOneActive",
              4: "InvOneAtATime", 5: "InvViewOK", 6: "InvPendingWF"}
 
@@ -76,7 +83,9 @@ def validate_batch(batch, module="Trace_System.tla", cfg="Trace_System.cfg", sha
     if n == 0:
         return [], {"states": 0, "distinct": 0, "wall_s": 0.0}
     shards = max(1, min(shards, n))
-    parts = [list(range(s, n, shards)) for s in range(shards)]
+    # at most CHUNK traces per JVM (memory stays flat however large the batch); `shards` JVMs at a time
+    nparts = max(shards, -(-n // CHUNK))
+    parts = [list(range(s, n, nparts)) for s in range(nparts)]
     wd = workdir("batch")
     results = [None] * n
     tot = {"states": 0, "distinct": 0, "wall_s": 0.0}
@@ -102,7 +111,7 @@ def validate_batch(batch, module="Trace_System.tla", cfg="Trace_System.cfg", sha
     t0 = time.time()
     try:
         with ThreadPoolExecutor(max_workers=shards) as ex:
-            for si, vs, g, d, wall in ex.map(one, range(shards)):
+            for si, vs, g, d, wall in ex.map(one, range(nparts)):
                 tot["states"] += g
                 tot["distinct"] += d
                 for verdict, t, reached, inv, summ in vs:
